@@ -253,6 +253,37 @@ def packet_stores(path, func=None):
     return out
 
 
+def check_strategy_strict(ctx, ci, fi, s, parked, rule='R4-strict-decode'):
+    """every value one unpack strategy stores is decoded length-strictly; returns the number of flows"""
+    repo = ctx.repo
+    gsets = [set(g) for g in s.get('guard_sets', [])]
+    known = set.intersection(*gsets) if gsets else set()
+
+    def fold_(t, _known=known):
+        c_ = canon(t)
+        if c_ in _known:
+            return True
+        if ('not ' + c_) in _known:
+            return False
+        return None
+    w = repo.walker(inline_depth=ctx.depth, max_paths=ctx.max_paths, split_ifexp=True, fold=fold_)
+    w.const_heap = dict(repo.ctor_consts(ci))      # attributes the constructor derives from the declared ones
+    w.const_heap.update(parked)    # a resolver / locator chosen by _compile is followed
+    from ..model import derived_strategy_consts
+    w.const_heap.update(derived_strategy_consts(repo, ci, s))     # ... and what _compile derives from the declared options
+    w.strip_asserts = True
+    w.unbound_raises = True
+    paths = w.paths(fi.node, cls=ci)
+    ctx.unit('paths', len(paths))
+    flows = 0
+    for p in paths:
+        if p.raises():
+            continue
+        for eff in packet_stores(p, fi.node):
+            flows += check_flow(ctx, ci, fi, p, eff, rule=rule) or 0
+    return flows
+
+
 def check(ctx):
     repo = ctx.repo
     # Round 6: the file-backed stand-in for bytes returns what the file returned, so that a short
@@ -270,6 +301,11 @@ def check(ctx):
             ctx.unit('unpack_strategies')
             sites += len(raw_slices(fi.node))
         seen_funcs.add(fi.id)
+        k = check_strategy_strict(ctx, ci, fi, s, parked)
+        if k:
+            flows += k
+            funcs_with_flow.add(fi.id)
+        continue
         # what _compile knows whenever it installs this function holds on every path of it
         gsets = [set(g) for g in s.get('guard_sets', [])]
         known = set.intersection(*gsets) if gsets else set()
